@@ -335,6 +335,20 @@ func (c *Ctx) summary(p *prover, fn *ssa.Function) []resultSummary {
 				}
 			}
 		case isStringLike(rt):
+			// len(result) <= k for a constant k the function itself compares against
+			for _, cand := range cmpConsts(fn) {
+				all := true
+				for _, r := range rets {
+					if !p.LE(r.Results[i], true, 0, nil, false, cand, r) {
+						all = false
+						break
+					}
+				}
+				if all {
+					out = append(out, resultSummary{result: i, resultIsLen: true, kind: "le-const", k: cand})
+					break
+				}
+			}
 			for _, cand := range []int64{2, 1} {
 				all := true
 				for _, r := range rets {
@@ -351,6 +365,31 @@ func (c *Ctx) summary(p *prover, fn *ssa.Function) []resultSummary {
 		}
 	}
 	c.summaries[fn] = out
+	return out
+}
+
+// cmpConsts: the non-negative integer constants fn compares a value with, ascending.
+func cmpConsts(fn *ssa.Function) []int64 {
+	seen := map[int64]bool{}
+	var out []int64
+	eachInstr(fn, func(_ *ssa.BasicBlock, _ int, in ssa.Instruction) {
+		b, ok := in.(*ssa.BinOp)
+		if !ok {
+			return
+		}
+		switch b.Op.String() {
+		case "<", "<=", ">", ">=":
+		default:
+			return
+		}
+		for _, v := range []ssa.Value{b.X, b.Y} {
+			if k, ok := constInt(v); ok && k >= 0 && !seen[k] {
+				seen[k] = true
+				out = append(out, k)
+			}
+		}
+	})
+	sort.Slice(out, func(i, j int) bool { return out[i] < out[j] })
 	return out
 }
 
